@@ -3,12 +3,13 @@
    values/numbers.py: Float.to_str_fixed, to_str_scientific, _group_thousands, _scientific_notation,
    _decimal_notation, _get_digits.
    Strings are `list Z` of bytes.  A numeric value enters as `nval`: sign, is_zero, single/double and the
-   table  n |-> Float.to_decimal(n) = (mantissa, exp10)  for n = 0 .. 7 (single) / 16 (double) of its
+   table  n |-> Float.to_decimal(n) = (mantissa, exp10)  (n in 0 .. 7 single / 16 double) of its
    absolute value (binary->decimal conversion is property C07's business; everything that is done with
    the mantissa afterwards is modelled here).  The model follows the code with defects D08a-c fixed.
    The while-loop of _print_using is modelled as `tokenize` (what is recognised at a stream position
    depends on the position only) followed by passes over the item list.       NO proofs here. *)
 From Coq Require Import ZArith List Bool.
+From Coq Require Strings.String Strings.Ascii.
 From PCB Require Import lib.Result lib.PyInt lib.Harness gen.Gen_using.
 Import ListNotations.
 Open Scope Z_scope.
@@ -164,17 +165,22 @@ Definition parse_number_field (s : list Z) : option (nfield * list Z) :=
   end.
 
 (* ---------------------------------------------------------------- numeric values *)
-Record nval := mkNV { nv_neg : bool; nv_zero : bool; nv_dbl : bool; nv_tab : list (Z * Z) }.
+Record nval := mkNV { nv_neg : bool; nv_zero : bool; nv_dbl : bool; nv_tab : list (Z * (Z * Z)) }.
 Inductive uval := UStr (s : list Z) | UNum (v : nval).
 
 Definition nv_digits (v : nval) : Z := if nv_dbl v then using_digits_double else using_digits_single.
 Definition exp_sign (v : nval) : Z := if nv_dbl v then cD else cE.
 
 (* Float.to_decimal(n): n is clamped to 0 .. self.digits by the code itself; the result is an input *)
+Fixpoint assocz {A} (k : Z) (l : list (Z * A)) : option A :=
+  match l with
+  | [] => None
+  | (k', a) :: r => if k' =? k then Some a else assocz k r
+  end.
 Definition to_decimal (v : nval) (n : Z) : res (Z * Z) :=
-  match nth_error (nv_tab v) (Z.to_nat (Z.max 0 (Z.min n (nv_digits v)))) with
+  match assocz (Z.max 0 (Z.min n (nv_digits v))) (nv_tab v) with
   | Some p => Ok p
-  | None => Host host_KeyError
+  | None => Host host_KeyError      (* the harness did not supply this entry *)
   end.
 
 (* Float._group_thousands *)
@@ -388,11 +394,30 @@ Definition print_using (fmt : list Z) (vals : list uval) (trailing : bool) : lis
   | _ => cycles (S (length vals)) trailing (tokenize fmt) false [] vals
   end.
 
+(* ---------------------------------------------------------------- harness encoding (compact literals) *)
+(* byte strings are written as hex strings in the case files; outputs are compared 7 bytes per integer *)
+Definition hexval (a : Ascii.ascii) : Z :=
+  let n := Z.of_N (Ascii.N_of_ascii a) in if n <? 58 then n - 48 else n - 87.
+Fixpoint hexz (s : String.string) : list Z :=
+  match s with
+  | String.String a (String.String b r) => (16 * hexval a + hexval b) :: hexz r
+  | _ => []
+  end.
+Fixpoint pack7 (fuel : nat) (l : list Z) : list Z :=
+  match fuel with
+  | O => []
+  | S f => match l with
+           | [] => []
+           | _ => fold_left (fun a b => a * 256 + b) (firstn 7 l) 0 :: pack7 f (skipn 7 l)
+           end
+  end.
+Definition packed (l : list Z) : list Z := zlen l :: pack7 (length l) l.
+
 (* what reaches the output device: bytes written, then the line end `nl` if PRINT ends the line *)
 Definition enc_stream (nl : list Z) (r : list Z * res bool) : list Z :=
   match r with
-  | (o, Ok b) => 0 :: 0 :: o ++ (if b then nl else [])
-  | (o, Err e) => 1 :: e :: o
+  | (o, Ok b) => 0 :: 0 :: packed (o ++ (if b then nl else []))
+  | (o, Err e) => 1 :: e :: packed o
   | (o, Host x) => [2; x]
   | (o, OutOfFuel) => [3]
   end.
